@@ -140,7 +140,12 @@ class SFTPHandle(ClosingContextManager):
             self.__tell = None
             return SFTPServer.convert_errno(e.errno)
         if self.__tell is not None:
-            self.__tell += len(data)
+            if self.__flags & os.O_APPEND:
+                # the data went to the end of the file, wherever that was
+                # (the position remembered from an earlier read is void)
+                self.__tell = None
+            else:
+                self.__tell += len(data)
         return SFTP_OK
 
     def stat(self):
